@@ -92,6 +92,15 @@ def run(tier, seed):
         if sample is None:
             b = next(x for x in behs if len(x["lines"]) >= 5 and not x["dev"])
             sample = {"lines": b["lines"], "ddl": A.render(b, b["stmts"], seed), "expected": A.expected_entities(b, b["stmts"])}
+    if thorough:
+        g = F.mc(F.consts(SK, MaxStmts=4, CmStyles=F.ALLCM, MaxCm=3, WithHist="TRUE"), "simulation: <=4 statements, <=3 comments", timeout=3000,
+                 simulate="num=20000", depth=30, seed=seed + 9)
+        ub = list({repr(b["lines"]): b for b in g.beh}.values())
+        res = C.pool().map(F._replay, [(b, seed, {}, {}, True) for b in ub], 32)
+        nd, nb = judge(V, ub, res, seed, "simulation")
+        tot_drift += nd
+        total += len(ub)
+        cov["generation"].append({"config": "simulation (<=4 statements, <=3 comments)", "replayed": len(ub), "mismatches": nb})
     # ---- code -> spec: the real assembler's per-line events on the regression corpus, validated by TLC --------------------------
     from .. import corpus as CP
     from .. import trace_asm as TA
